@@ -20,12 +20,46 @@ class Violation:
         self.reproduced = None
 
     def record(self):
-        return {"property": self.prop, "monitor": self.monitor, "message": self.message, "tags": self.tags,
-                "case": self.case, "reproduced": self.reproduced}
+        return {"property": self.prop, "monitor": self.monitor, "message": self.message, "tags": _plain(self.tags),
+                "case": _plain(self.case), "reproduced": self.reproduced}
 
     def key(self):
-        return hashlib.blake2b(json.dumps([self.prop, self.monitor, self.case], sort_keys=True, default=repr).encode(),
+        return hashlib.blake2b(json.dumps([self.prop, self.monitor, _plain(self.case)], default=repr).encode(),
                                digest_size=8).hexdigest()
+
+
+def _plain(v):
+    """JSON-safe copy that keeps int / str dict keys distinguishable without needing them to be mutually orderable."""
+    if isinstance(v, dict):
+        return {(k if isinstance(k, str) else f"<{type(k).__name__}>{k!r}"): _plain(x) for k, x in v.items()}
+    if isinstance(v, (list, tuple)):
+        return [_plain(x) for x in v]
+    if isinstance(v, (set, frozenset)):
+        return sorted((_plain(x) for x in v), key=repr)
+    if isinstance(v, (str, int, float, bool)) or v is None:
+        return v
+    return repr(v)
+
+
+def unplain(v):
+    """Inverse of _plain for dict keys (used when a replay file is loaded)."""
+    import ast
+    import re
+
+    if isinstance(v, dict):
+        out = {}
+        for k, x in v.items():
+            m = re.match(r"^<(int|float|bool|NoneType|tuple)>(.*)$", k) if isinstance(k, str) else None
+            if m:
+                try:
+                    k = ast.literal_eval(m.group(2))
+                except (ValueError, SyntaxError):
+                    pass
+            out[k] = unplain(x)
+        return out
+    if isinstance(v, list):
+        return [unplain(x) for x in v]
+    return v
 
 
 def out_root():
